@@ -10,6 +10,34 @@ def leak(q, pid):
     q.group = 'allocation balance: ' + q.group
     return q
 
+from props.C10 import MALLOC
+LD_SRCS = [('pdmemory.c', MALLOC + ['-Dpdgstrf_MemInit=real_pdgstrf_MemInit', '-Dsuperlu_dQuerySpace=real_superlu_dQuerySpace'])] + [(f, MALLOC) for f in ['pdgssvx.c', 'pdgstrf.c', 'pdgstrf_thread_init.c', 'pdgstrf_thread_finalize.c', 'pxgstrf_synch.c',
+                                 'pxgstrf_relax_snode.c', 'sp_colorder.c', 'sp_coletree.c', 'qrnzcnt.c', 'cholnzcnt.c', 'get_perm_c.c',
+                                 'pmemory.c', 'pdutil.c', 'pxgstrf_finalize.c', 'lsame.c']] + \
+          [('util.c', MALLOC + ['-Dsuperlu_abort_and_exit=real_superlu_abort_and_exit'])]
+
+def leakdrv_query(pid, scen, n, pat, nr=0, sym=0, P=1, w=1, relax=1, trans=0, pc=None, wit=0, timeout=900):
+    pc = pc or tuple(range(n))
+    q = Query('%s.drv.s%d.n%d.p%x.nr%d.sym%d.P%d.w%d%d.t%d.pc%s.e%d' % (pid, scen, n, pat, nr, sym, P, w, relax, trans, ''.join(map(str, pc)), wit), 'leakdrv_h.c', LD_SRCS,
+              defs={'SCEN': scen, 'NN': n, 'PAT': hex(pat), 'LD_NR': nr, 'LD_SYM': sym, 'LD_P': P, 'LD_W': w, 'LD_RELAX': relax, 'LD_TRANS': trans,
+                    'LD_PC': '0x' + ''.join('%x' % d for d in reversed(pc)), 'LD_WIT': wit}, engine='sat', unwind=4 * n + 8, timeout=timeout,
+              group='real pdgssvx down to the start of the workers: %s' % {1: 'workspace query', 2: 'caller workspace of any size and alignment (too small / retries / just enough)', 3: 'allocator refuses factor arrays from any request on'}[scen])
+    return q
+
+def leakdrv_plan(pid, tier, seed):
+    rnd = random.Random(seed + 17)
+    qs = []
+    k = 0
+    for scen in (1, 2, 3):
+        for n, pats in ((2, [0xf, 0x9, 0xb, 0xd]), (3, [0x1ff, 0x111, 0x1b3, 0x0d5 | 0x111])):
+            for pat in pats:
+                for nr in (0, 1):
+                    k += 1
+                    for wit in ((0, 1) if scen != 1 else (0,)):
+                        qs.append(leakdrv_query(pid, scen, n, pat, nr=nr, sym=k % 2, P=1 + k % 2, w=1 + (k // 2) % 2, relax=1 + (k // 3) % 2, trans=k % 3,
+                                                pc=perms(n)[k % len(perms(n))], wit=wit))
+    return qs
+
 def plan(tier, seed):
     rnd = random.Random(seed)
     qs = []
@@ -28,14 +56,16 @@ def plan(tier, seed):
     # worker loop: per-thread work storage is given back exactly once on every non-memory-error return (incl. singular)
     from props.C06 import thr_query
     qs.append(thr_query('C17', 6, 2))
+    # non-factoring returns of the real expert driver: workspace query, caller workspace too small, allocator refusal
+    qs += leakdrv_plan('C17', tier, seed)
     return qs
 
 META = {
     'level': 'model_checking',
     'engines': 'E1: cbmc 6.11 bit-precise; USER_MALLOC/USER_FREE (the library\'s own override points) routed to counting wrappers',
-    'bounds': {'worker loop': 'as C06: work storage requested once and given back once on every return without memory error, any hand-out order, any singular columns', 'routines': 'get_perm_c (options 0..2), sp_colorder (+sp_coletree/sp_symetree/TreePostorder/qrnzcnt/cholnzcnt), and the illegal-argument returns of both drivers and six computational routines',
+    'bounds': {'driver returns without factorization': 'real pdgssvx with everything real down to the start of the workers, counting USER_MALLOC/USER_FREE: lwork=-1 query; caller workspace 1..80n^2 bytes at any alignment; system allocator refusing every MemInit request from the k-th on (k symbolic); n=2,3, 8 patterns, NC/NR, symmetric mode on/off, 1-2 threads, w/relax 1..2', 'worker loop': 'as C06: work storage requested once and given back once on every return without memory error, any hand-out order, any singular columns', 'routines': 'get_perm_c (options 0..2), sp_colorder (+sp_coletree/sp_symetree/TreePostorder/qrnzcnt/cholnzcnt), and the illegal-argument returns of both drivers and six computational routines',
                'inputs': 'm,n<=2 all patterns, 3x3 sampled (thorough: all); symbolic input permutation for sp_colorder; whole symbolic argument records'},
-    'outside': ['thread and file handles (OS facts)', 'the drivers\' successful / singular / out-of-memory returns (allocator stubs would hide the real allocation sites there)', 'COLAMD'],
+    'outside': ['thread and file handles (OS facts)', 'the drivers\' successful / singular returns and allocation failures after the workers have started (the numeric factorization is not bit-precisely encodable; E2 queries use typed allocator stubs)', 'refusal of requests whose failure the library answers with abort (intMalloc) or does not check (expander table, ParallelInit)', 'COLAMD'],
     'assumptions': ['balance zero per call implies no growth over any call sequence'],
     'trusted_base': ['cbmc 6.11', 'MiniSat'],
 }
